@@ -22,6 +22,7 @@ type Facts struct {
 	BarrierThenBatch   bool
 	CallRunningBefore  bool // a parked call preceded a later record (the "not delayed" half)
 	MoreThanSlots      bool // more dispatched parking requests than slots at some quiescent point
+	MaxParked          int  // most handlers parked at one quiescent point
 	IDReuseInFlight    bool
 	IDReuseAfterError  bool
 	IDReuseAfterCancel bool
@@ -157,6 +158,7 @@ func Describe(sc sim.Scenario, h *sim.History) Facts {
 					}
 				}
 			}
+			f.MaxParked = max(f.MaxParked, gates)
 			if len(seen) >= 2 {
 				f.ParkedAcrossRecs = true
 			}
@@ -222,6 +224,10 @@ func (f Facts) Labels() []string {
 	add(f.BarrierThenBatch, "barrier-then-batch")
 	add(f.CallRunningBefore, "running-call-precedes")
 	add(f.MoreThanSlots, "more-work-than-slots")
+	add(f.MaxParked > 16, "parked-more-than-16")
+	if f.MaxParked >= 8 {
+		out = append(out, "parked:"+strconv.Itoa(f.MaxParked/4*4)+"+")
+	}
 	add(f.IDReuse, "id-reuse")
 	add(f.IDReuseInFlight, "id-reuse-in-flight")
 	add(f.IDReuseAfterError, "id-reuse-after-error")
